@@ -2,6 +2,12 @@
   C10 — model of traversal / lookup / flatten / canonicalize on *plain* nested values
   (`dict` with `str`/`int` keys, `list`, leaves `None` / `int` / `str`).
 
+  VALUES ARE TREES. A Python value in which the same dict / list object sits at several positions
+  (aliasing, no cycles) is modelled by its unfolding: the shared object appears as equal subtrees.
+  All functions below are insensitive to aliasing in the code (they never mutate their input and
+  never compare containers by identity), which the correspondence run checks on aliased inputs;
+  node identity (`p.query(root) is node`) is checked by the oracle on the real objects.
+
   * `visitsPre` / `visitsPost`   `utils.traverse` (hierarchical.py:22-85) and `pg.traverse`
                                  (symbolic/base.py:1337-1432) — same walk on plain values;
   * `query`                      `KeyPath._query` (value_location.py:334-383) on plain values,
@@ -126,6 +132,16 @@ def isLeaf : Val → Bool
 /-- `pg.query(x, where=<is leaf>)`: a dict keyed by `str(path)` (later equal keys overwrite). -/
 def queryLeaves (v : Val) : Items :=
   ((visitsPre v []).filter (fun pv => isLeaf pv.2)).foldl
+    (fun acc pv => Assoc.set acc (.s (pathStr pv.1)) pv.2) []
+
+/-- The rebinder dictionary `get_rebind_dict(fn, x)` (symbolic/base.py) for the rebinder that
+replaces every int leaf `n` by `n + 1` and keeps everything else: keyed by `str(path)`. -/
+def intBump : Path × Val → Option (Path × Val)
+  | (p, .leaf (.int z)) => some (p, .leaf (.int (z + 1)))
+  | _ => none
+
+def rebindInts (v : Val) : Items :=
+  ((visitsPre v []).filterMap intBump).foldl
     (fun acc pv => Assoc.set acc (.s (pathStr pv.1)) pv.2) []
 
 /-! ### flatten -/
